@@ -886,3 +886,25 @@ def x19(cx: Cx, ob: Ob) -> None:
     from .c04 import d3 as validators
 
     validators(cx, ob)
+
+
+@obligation("C13-X30", "expansion path (shared with C02-D1/D2/D5/D6): _split cuts at the first separator, parse_curie splits the unmodified CURIE with self.delimiter, the identifier flows untouched into prefix_map[prefix] + identifier and expand / expand_pair funnel into it - 'each listed (prefix, URI prefix) pair expands and compresses accordingly' is answered by these query functions, whatever the loader", floor=6)
+def x30(cx: Cx, ob: Ob) -> None:
+    from .c02 import check_expand_reference, check_expand_wrappers, check_parse_curie_delimiter, check_parse_curie_flow, check_split
+
+    check_split(cx, ob)
+    check_parse_curie_delimiter(cx, ob)
+    check_parse_curie_flow(cx, ob)
+    check_expand_reference(cx, ob)
+    check_expand_wrappers(cx, ob)
+
+
+@obligation("C13-X31", "compression path (shared with C01-D2/D3/D4): parse_uri asks the trie for the longest stored prefix of the unmodified URI and returns the rest, compress joins that with self.delimiter and fails only when nothing matched, is_uri is a None-test of it - 'each listed (prefix, URI prefix) pair expands and compresses accordingly' is answered by these query functions, whatever the loader", floor=6)
+def x31(cx: Cx, ob: Ob) -> None:
+    from .c01 import check_parse_uri_lookup, check_remainder, curie_join_check, format_curie_check, is_parse_uri_of, is_uri_check
+
+    check_parse_uri_lookup(cx, ob)
+    check_remainder(cx, ob)
+    curie_join_check(cx, ob, "compress", is_parse_uri_of("uri"), "self.parse_uri(uri, ...)")
+    format_curie_check(cx, ob)
+    is_uri_check(cx, ob)
